@@ -1,0 +1,141 @@
+//go:build verif
+
+// Verification-only export shim (build tag "verif"): package-internal names made reachable for the
+// property checks in /verif. Add-only; nothing here is compiled into a normal build.
+package eth
+
+import (
+	"encoding/binary"
+	"math/big"
+
+	"github.com/ethereum/go-ethereum/crypto"
+	"github.com/polynetwork/poly/native"
+)
+
+// ---- pure header rules (C28) ----------------------------------------------------------------
+
+func VerifDatasetSize(block uint64) uint64   { return datasetSize(block) }
+func VerifCacheSize(block uint64) uint64     { return cacheSize(block) }
+func VerifCalcDatasetSize(epoch int) uint64  { return calcDatasetSize(epoch) }
+func VerifCalcCacheSize(epoch int) uint64    { return calcCacheSize(epoch) }
+func VerifMaxEpoch() int                     { return maxEpoch }
+func VerifEpochLength() uint64               { return epochLength }
+func VerifIsLondon(h *Header) bool           { return isLondon(h) }
+func VerifIsArrowGlacier(h *Header) bool     { return isArrowGlacier(h) }
+func VerifIsTest() (bool, uint64)            { return isTest, testLondonHeight }
+func VerifSetIsTest(on bool, london uint64)  { isTest, testLondonHeight = on, london }
+func VerifSeedHash(block uint64) []byte      { return seedHash(block) }
+
+// VerifDifficultyCalculator is the pre-London calculator used by SyncBlockHeader.
+func VerifDifficultyCalculator(time *big.Int, parent *Header) *big.Int {
+	return difficultyCalculator(time, parent)
+}
+
+// VerifMakeDifficultyCalculator is the London / Arrow Glacier calculator factory.
+func VerifMakeDifficultyCalculator(bombDelay *big.Int) func(time uint64, parent *Header) *big.Int {
+	return makeDifficultyCalculator(bombDelay)
+}
+
+// ---- seal switch through existing package-level variables (C27, C28 through SyncBlockHeader) ----
+//
+// verifyHeader cannot be edited, but everything it consults for the proof-of-work *threshold* and
+// for the ethash *sizes* lives in package-level variables: two256 (numerator of the target) and
+// the cacheSizes / datasetSizes tables. VerifSealSwitch raises two256 so that every hashimoto
+// result is below the target for difficulties < 2^limitBits, and shrinks the tables so that the
+// light-verification cache is a few hundred bytes instead of >= 16 MB. The mix-digest equality
+// check of verifyHeader stays active; VerifMixDigest computes the digest a header must carry.
+// The returned function restores the original values.
+func VerifSealSwitch(cacheBytes, datasetBytes uint64, limitBits uint) (restore func()) {
+	oldTwo := two256
+	oldCache := cacheSizes
+	oldData := datasetSizes
+	two256 = new(big.Int).Lsh(big.NewInt(1), 256+limitBits)
+	for i := range cacheSizes {
+		cacheSizes[i] = cacheBytes
+	}
+	for i := range datasetSizes {
+		datasetSizes[i] = datasetBytes
+	}
+	return func() {
+		two256 = oldTwo
+		cacheSizes = oldCache
+		datasetSizes = oldData
+	}
+}
+
+// VerifMixDigest returns the ethash mix digest of the header (hashimoto-light over the cache that
+// Caches.getCache would build for the header's epoch with the table sizes currently in force).
+// Own straight-line implementation on top of the package's primitive helpers; does not touch any
+// contract storage.
+func VerifMixDigest(header *Header) (digest [32]byte) {
+	number := header.Number.Uint64()
+	epoch := number / epochLength
+	csize := cacheSize(epoch*epochLength + 1)
+	cache := make([]uint32, csize/4)
+	(&Caches{}).generateCache(cache, seedHash(epoch*epochLength+1))
+	size := datasetSize(number)
+	seed := make([]byte, 40)
+	copy(seed, HashHeader(header).Bytes())
+	binary.LittleEndian.PutUint64(seed[32:], header.Nonce.Uint64())
+	seed = crypto.Keccak512(seed)
+	mix := make([]uint32, mixBytes/4)
+	for i := 0; i < len(mix); i++ {
+		mix[i] = binary.LittleEndian.Uint32(seed[i%16*4:])
+	}
+	rows := uint32(size / mixBytes)
+	temp := make([]uint32, len(mix))
+	seedHead := binary.LittleEndian.Uint32(seed)
+	memo := map[uint32][]uint32{}
+	for i := 0; i < loopAccesses; i++ {
+		parent := fnv(uint32(i)^seedHead, mix[i%len(mix)]) % rows
+		for j := uint32(0); j < mixBytes/hashBytes; j++ {
+			idx := 2*parent + j
+			xx, ok := memo[idx]
+			if !ok {
+				xx = lookup(cache, idx)
+				memo[idx] = xx
+			}
+			copy(temp[j*hashWords:], xx)
+		}
+		fnvHash(mix, temp)
+	}
+	for i := 0; i < len(mix); i += 4 {
+		mix[i/4] = fnv(fnv(fnv(mix[i], mix[i+1]), mix[i+2]), mix[i+3])
+	}
+	mix = mix[:len(mix)/4]
+	for i, val := range mix {
+		binary.LittleEndian.PutUint32(digest[i*4:], val)
+	}
+	return digest
+}
+
+// VerifVerifySeal runs the handler's ethash verification on one header (fresh Caches over svc).
+func VerifVerifySeal(svc *native.NativeService, header *Header) error {
+	caches := NewCaches(3, svc)
+	defer caches.deleteCaches()
+	return NewETHHandler().verifyHeader(header, caches)
+}
+
+// ---- property C17 part B (storage-key injectivity): thin wrappers of the unexported put helpers,
+// used as black-box key constructors. No logic.
+
+func VerifPutGenesisBlockHeader(native *native.NativeService, blockHeader Header, chainID uint64) error {
+	return putGenesisBlockHeader(native, blockHeader, chainID)
+}
+
+func VerifPutBlockHeader(native *native.NativeService, blockHeader Header, difficultySum *big.Int, chainID uint64) error {
+	return putBlockHeader(native, blockHeader, difficultySum, chainID)
+}
+
+func VerifAppendHeader2Main(native *native.NativeService, height uint64, hash [32]byte, chainID uint64) error {
+	return appendHeader2Main(native, height, hash, chainID)
+}
+
+// VerifAddCache / VerifTryCache reach the ethash cache record (Caches.addCache / Caches.tryCache).
+func VerifAddCache(native *native.NativeService, epoch uint64, cache []uint32) {
+	NewCaches(3, native).addCache(epoch, cache)
+}
+
+func VerifTryCache(native *native.NativeService, epoch uint64) []uint32 {
+	return NewCaches(3, native).tryCache(epoch)
+}
